@@ -14,6 +14,11 @@ CLAIMS = {
    design_ref="DESIGN.md section 5 C06, section 8",
    note=COMMON_NOTE + "Modelled not verified: substdio buffering (exercised by chunked reads), read errors (temp_read) outside the model.",
    technique="Coq proof (induction over the message, decoder-state framing invariant) + extracted-model differential tie to the real blast()"),
+ "C05": dict(category="proof",
+   text="Theorems over all byte streams about Codec.sblast, the Gallina model of qmail-smtpd.c blast(): it returns only at the first CR LF . CR LF (exactly one occurrence in the consumed prefix, as suffix, rest handed back untouched, no bare LF consumed); exhausted input contained no terminator; the 451 path only at a bare LF before any terminator; every message sent by a conforming sender, and everything the package's own client sends, decodes to exactly the original lines. Tied to the real blast() on every run (exhaustive {CR,LF,'.',x}* to length 8/10, all chunkings, NUL/0xff, size limit armed, hop counter) with the extracted oracle ok_C05 (independent RFC 5321 reference decoder) evaluated on the real function's result.",
+   design_ref="DESIGN.md section 5 C05, section 8",
+   note=COMMON_NOTE + "Equality of sblast with the independent reference decoder rfc_decode on every stream is checked by the oracle on the implementation's outputs (differential), not yet proved as a theorem; the surrounding session (451 reply, nothing queued) belongs to C07/C08.",
+   technique="Coq proof (decoder-state framing invariant by induction over the stream) + extracted-model differential tie to the real blast()"),
 }
 
 REASON_PENDING = "not yet claimed: model/correspondence for this property is still being built (DESIGN.md section 7); no check is registered for it"
